@@ -43,8 +43,8 @@ def specs(repo):
              model="wait", gen="gen_wait"),
         Spec(repo, PATH, "NotifierDelay", "free", ND, [], {}, effects=EFFECTS, siblings=sib, result="state", model="free", gen="gen_free"),
         Spec(repo, PATH, "NotifierDelay", "__exit__", ND, [("exc", "bool")],
-             {"exc_type": "exc", "exc_val": "exc", "exc_tb": "exc"}, effects=EFFECTS, siblings=sib, result="state",
-             model="(fun d (exc : bool) => free d)", unfold=["free"], gen="gen_exit"),
+             {"exc_type": "exc", "exc_val": "exc", "exc_tb": "exc"}, effects=EFFECTS, siblings=sib, none_value="false",
+             model="(fun d (exc : bool) => (free d, false))", unfold=["free"], gen="gen_exit"),
         Spec(repo, PATH, "NotifierDelay", "__del__", ND, [], {}, effects=EFFECTS, siblings=sib, result="state", model="free", gen="gen_del"),
     ]
 
